@@ -48,7 +48,9 @@ Fixpoint lindex (l : list label) (x : label) : nat :=
   match l with [] => O | y :: r => if label_eqb y x then O else S (lindex r x) end.
 
 (* ---------- results with the exception classes the code raises ---------- *)
-Inductive err := EFloatingGround | EAmbiguousIDs | EKeyError | ESingular | EValue | EAttribute | EOther.
+Inductive err := EFloatingGround | EAmbiguousIDs | EKeyError | ESingular | EValue | EAttribute | EOther
+  | EMultipleGround | EAmbiguousComponent | ETypeError | EZeroDivision | EFileFormat | EFileExists | EUnknownWavetype
+  | EUnidentified | EIncorrectInfo | EUnknownComponent | EIndex.
 Inductive res (A : Type) := Ok (a : A) | Err (e : err).
 Arguments Ok {A} a. Arguments Err {A} e.
 Definition bind {A B} (r : res A) (f : A -> res B) : res B :=
